@@ -16,7 +16,6 @@ import multiprocessing as mp
 import os
 import random
 import re
-import time
 
 from . import control_gen as G
 from .leanproj import proof_coverage
@@ -31,7 +30,6 @@ BUDGET = {
     "C18": {"quick": 700, "thorough": 4000},
     "C19": {"quick": 140, "thorough": 700},
 }
-CLI_CLIENTS = {"quick": 5, "thorough": 60}
 DEADLINE = {"quick": 420, "thorough": 2400}      # whole sweep of one check; exceeded = harness trouble (exit 2)
 
 
